@@ -85,6 +85,9 @@ Init == /\ parents \in [Classes -> SUBSET Classes]
         /\ split \in {"none", "KA"}
         /\ (Level = "quick" /\ split # "none" => wrap = "plain" /\ shared = {} /\ layout = "AB|C" /\ where = "type")
         /\ (Level = "cycles" => split = "none")
+        \* thorough: the file layouts and the split class are crossed with every hierarchy and shared-field set, but
+        \* not with the wrappers and alias configurations (the full product is beyond an hour of replay)
+        /\ (Level = "thorough" /\ (layout # "AB|C" \/ split # "none") => wrap = "plain" /\ ty \in Classes)
         /\ (Level = "quick" /\ layout # "AB|C" => wrap = "plain" /\ shared = {} /\ ty \in Classes)
         /\ (Level = "cycles" => HasCycle /\ wrap = "plain" /\ shared = {} /\ ty \in Classes)
         /\ (where = "alias" => ty \in Aliases /\ wrap # "plain" /\ Resolve(ty, {}) # "none")
